@@ -12,7 +12,9 @@ for d in sorted(glob.glob(pat)):
     if d.startswith('/verif/seeded/'):
         name = os.path.basename(d.rstrip('/')); prop = name.split('-')[0]
     else:
-        if 'seed4-out-' in d:      # fourth round: numbered after the first nine
+        if 'seed5-out-' in d:      # fifth round (twelve properties that had nine): numbered after the first nine
+            prop = d.split('seed5-out-')[1].split('/')[0]; i = str(int(d.rstrip('/').split('/')[-1]) + 9)
+        elif 'seed4-out-' in d:      # fourth round: numbered after the first nine
             prop = d.split('seed4-out-')[1].split('/')[0]; i = str(int(d.rstrip('/').split('/')[-1]) + 9)
         elif 'seed3-out-' in d:      # third round: numbered after the first six
             prop = d.split('seed3-out-')[1].split('/')[0]; i = str(int(d.rstrip('/').split('/')[-1]) + 6)
